@@ -72,6 +72,8 @@ class CascadeMonitor:
     def _before_process(self, args, kwargs):
         # "after every defuzzification": processing an engine is what defuzzifies - once per enabled output variable
         self.in_process = {id(ov): [ov, 0] for ov in args[0].output_variables if ov.enabled}
+        # (what each output variable holds when processing starts: it is the "most recent value" of the defuzzification to come)
+        self.held_at_entry = {id(ov): (np.array(ov.value, dtype=float, copy=True), np.array(ov.previous_value, dtype=float, copy=True)) for ov in args[0].output_variables}
         return self.in_process
 
     def _after_process(self, args, kwargs, token, result, exc):
@@ -98,6 +100,13 @@ class CascadeMonitor:
         self.raw, self.raw_exc = None, None
         if getattr(self, "in_process", None) and id(ov) in self.in_process:
             self.in_process[id(ov)][1] += 1
+            entry = getattr(self, "held_at_entry", {}).get(id(ov))
+            if entry is not None and self.in_process[id(ov)][1] == 1:
+                now = np.asarray(ov.value, dtype=float)
+                self.ctx.evaluated()
+                self.ctx.hit("compare:value held from the start of Engine.process to the defuzzification")
+                if now.shape != entry[0].shape or not bool(np.all((now == entry[0]) | (np.isnan(now) & np.isnan(entry[0])))):
+                    self.ctx.violation("Engine.process changes the value an output variable holds before it defuzzifies it (the most recent value is lost)", {"variable": ov.name}, entry[0], now)
         return {
             "enabled": ov.enabled,
             "value": np.array(ov.value, dtype=float, copy=True),
@@ -458,7 +467,7 @@ def run(ctx):
         reach.report(ctx)
     ctx.exhaustive = True
     ctx.extra["exhaustive_space"] = f"4^n sequences (n<=3 fully, n<={L} with sampled forms/faults) x 2^(n-1) splits x 12 settings x 4 result forms x failure at each call x clear"
-    ctx.require("law:editing the settings leaves the held value alone")
+    ctx.require("law:editing the settings leaves the held value alone", "compare:value held from the start of Engine.process to the defuzzification")
     ctx.require("piece:defuzzified while holding an empty batch", "piece:empty batch defuzzified")
     ctx.require("range:mixed magnitudes", "event:observer between steps", *[f"environment:{e}" for e in ENVIRONMENTS])
     ctx.require("event:Engine.process observed", "event:processed with an empty fuzzy output", "event:variable edited between defuzzifications", "event:two variables given the same array as value", "workload:large batch")
